@@ -36,3 +36,8 @@ package xlsx
 //@ func escapeMarkdown results (res)
 //@   property C15
 //@   ensures cell_safe: forall k int :: {res[k]} 0 <= k && k < len(res) ==> res[k] != 10 && (res[k] == '|' ==> k >= 1 && res[k-1] == 92)
+
+//@ func (ParsedTable) ToMarkdown
+//@   property C15
+//@   flags callsites
+//@   callsite WriteString(s) requires cell_or_structure: s == "|" || s == " " || s == " |" || s == "\n" || s == "---|" || (forall k int :: {s[k]} 0 <= k && k < len(s) ==> s[k] != 10 && (s[k] == '|' ==> k >= 1 && s[k-1] == 92))
